@@ -1021,6 +1021,13 @@ CORPUS = [
       seq(('call', V(5), [L(3)]), ('call', V(4), [L(5), L(6)]), ('call', ('call', V(4), [None, L(9)]), [L(8)]))))),
     ('let', 0, ('call', fn([1, 2, 3], seq(V(1), V(2), V(3))), [None, L(2), None]),
      ('for', 6, seq(L(1), L(2)), seq(('call', ('call', V(0), [V(6), None]), [L(7)]), ('call', V(0), [L(5), V(6)])))),
+    # seeded change m3: keys belong to item occurrences, not to values (1 == 1.0 == 1e0 == true() in Python)
+    ('sortK', seq(L(1), ('tt',), ('dlit', 1), ('elit', 1), L(0), ('ff',)),
+     fn([0], ('ite', ('inst', 'boolean', V(0)), L(0), ('ite', ('inst', 'double', V(0)), L(1),
+                                                        ('ite', ('inst', 'integer', V(0)), L(3), L(2)))))),
+    ('sortK', seq(L(1), ('elit', 1)), fn([0], ('ite', ('inst', 'decimal', V(0)), L(5), L(1)))),
+    ('sortK', seq(('dlit', 2), L(2), ('elit', 1), L(1), ('dlit', 1)),
+     fn([0], ('cat', V(0), ('ite', ('inst', 'integer', V(0)), L(1), L(0))))),
     # F16h: predicate result as a one-item sequence
     ('filter', seq(L(1), L(2), L(3)), fn([0], ('let', 1, V(0), ('gt', V(1), L(1))))),
     # arity
